@@ -154,6 +154,35 @@ pub fn cells(tier: Tier) -> Vec<CellPlan> {
         };
         v.push(plan(c, 0, 1.0));
     }
+    // Entity ids of the two worlds coincide: the client's replica of e1 has the very bits of the
+    // server's e2, which this client cannot see (whitelist). References to e2 are unresolvable
+    // for it until e2 becomes visible, whatever its own world holds under the same bits.
+    {
+        let mut cfg = Cfg::default();
+        cfg.events = true;
+        cfg.vis = Vis::Whitelist;
+        let c = EvCell {
+            name: "c04-ids-coincide".into(),
+            property: "C04",
+            cfg,
+            connect_at_start: vec![0],
+            init: vec![Op::Spawn(1, 1 << TA), Op::AlignNextId(0, 1), Op::Spawn(0, 1 << TA), Op::Vis(0, 0, true)],
+            alphabet: vec![
+                EvOp::Nop,
+                EvOp::World(Op::Vis(0, 1, true)),
+                EvOp::EmitS(SK::EM, Mode::Broadcast, Some(1)),
+                EvOp::EmitS(SK::TM, Mode::Broadcast, Some(1)),
+                EvOp::EmitS(SK::T1, Mode::Broadcast, Some(1)),
+                EvOp::EmitS(SK::EM, Mode::Broadcast, Some(0)),
+            ],
+            rounds: if q { 3 } else { 4 },
+            tick_choice: false,
+            env: EvEnv { hold_updates: 1, hold_events: true, reorder: false, drop_unreliable: false, hold_client_events: false, hold_mutations: false, hold_acks: false, update_latency: 0, update_batch: 0 },
+            oracles: EvOracles { c04: true, ..Default::default() },
+            closure_rounds: 4,
+        };
+        v.push(plan(c, if q { 1 } else { 2 }, 1.0));
+    }
     v
 }
 
